@@ -73,6 +73,31 @@ func systematicPkgCases(id *int, profile, scratch string, rng *rand.Rand, tier s
 			}
 			add(c, smallTree(), "vercomp")
 		}
+		// version-embedded vs explicit prerelease / metadata: every combination
+		for mask := 0; mask < 16; mask++ {
+			c := baseCfg("splitpkg")
+			c.Version = "v2.3.4"
+			if mask&1 != 0 {
+				c.Version += "-rc.1"
+			}
+			if mask&2 != 0 {
+				c.Version += "+git.abc"
+			}
+			if mask&4 != 0 {
+				c.Prerelease = "beta2"
+			}
+			if mask&8 != 0 {
+				c.Metadata = "b77"
+			}
+			add(c, smallTree(), "split")
+		}
+		// descriptions: blank and blanks-only lines, leading/trailing blanks, tabs
+		for _, d := range []string{"Syn\n\nafter empty", "Syn\n   \nafter spaces", "Syn\n\t\nafter tab", "  Syn padded  \n  indented line  ", "Syn\nlast\n", "Syn\n\n\n\ntwo blanks"} {
+			c := baseCfg("descpkg")
+			c.Description = d
+			c.DebFields = []KV2{{"Bugs", "https://bugs.example/after-description"}}
+			add(c, smallTree(), "desc")
+		}
 		// relations: each list alone, long lists
 		for i := 0; i < 6; i++ {
 			c := baseCfg("relpkg")
